@@ -3535,6 +3535,12 @@ static Token *global_variable(Token *tok, Type *basety, VarAttr *attr) {
     if (ty->kind == TY_VLA)
       error_tok(ty->name, "variable length array with static storage duration or linkage");
 
+    if (scope->next == NULL && equal(tok, "=")) {
+      VarScope *sc = find_var(ty->name);
+      if (sc && sc->var && sc->var->is_definition && !sc->var->is_tentative)
+        error_tok(ty->name, "redefinition of %s", get_ident(ty->name));
+    }
+
     Obj *var = new_gvar(get_ident(ty->name), ty);
     var->is_definition = !attr->is_extern;
     var->is_static = attr->is_static;
